@@ -90,7 +90,8 @@ AppSendsV(s, gh, v) ==
   \cup (IF "pubrel" \in AppKinds
         THEN { AckPkt("pubrel", v, e.pid, 0, s.idw) : e \in { x \in gh.await : x.kind = "pubrel" } } ELSE {})
   \cup UNION { { AckPkt(k, v, pid, rc, s.idw) : pid \in gh.inUn \cup (IF k = "pubcomp" THEN InPids ELSE IF k = "pubrec" THEN gh.handled ELSE {}),
-                                                  rc \in (IF k \in {"puback", "pubrec"} /\ v = "v50" THEN Rcs ELSE {0}) }
+                                                  rc \in (IF k \in {"puback", "pubrec"} /\ v = "v50" THEN Rcs
+                                                         ELSE IF k = "pubcomp" /\ v = "v50" /\ Rcs # {0} THEN {0, 146} ELSE {0}) }
                : k \in AppKinds \cap {"puback", "pubrec", "pubcomp"} }
   \cup UNION { { AckPkt(k, v, pid, 0, s.idw) : pid \in InPids } : k \in AppKinds \cap {"suback", "unsuback"} }
   \cup { Sized(Pk(k, v), s.idw) : k \in AppKinds \cap {"pingreq", "pingresp", "disconnect"} }
